@@ -5,14 +5,19 @@ check process (hundreds of MB of case data) costs ~0.1 s of page-table copying e
 import json, subprocess, sys
 from concurrent.futures import ThreadPoolExecutor
 HANGS = [0]
+def huge(hexin):
+    try: t = bytes.fromhex(hexin)
+    except ValueError: return False
+    return any(w.isdigit() and len(w) >= 7 and int(w) >= 2**22 for w in t.replace(b"-", b" ").split())
 def one(j):
     argv, hexin, timeout = j
-    if HANGS[0] >= 12: return "skip"       # enough runs that do not terminate have been found
+    if HANGS[0] >= 12: return "skip"
+    if huge(hexin): timeout = min(timeout, 8)      # may grow a table towards an announced id for minutes: classified by the caller       # enough runs that do not terminate have been found
     try:
         r = subprocess.run(argv, input=bytes.fromhex(hexin), capture_output=True, timeout=timeout)
         return [r.returncode, r.stderr.decode("latin-1")[-3000:]]
     except subprocess.TimeoutExpired:
-        HANGS[0] += 1
+        if not huge(hexin): HANGS[0] += 1
         return None
 def main():
     jobs = json.load(sys.stdin)
